@@ -214,6 +214,22 @@ top_groups = FunctionContract(
 CONTRACTS.append(top_groups)
 
 
+# ------------------------------------------------------------------ the shared atom order: both writers follow sorted_nodes
+# "the k-th coordinate record of a molecule is the k-th atom of the ITP of its molecule type": the ITP's k-th atom line is the
+# k-th node of molecule.sorted_nodes (contract of the [ atoms ] region, C02) and the k-th ATOM record of a molecule in the PDB
+# is the k-th node of molecule.sorted_nodes (contract of the ATOM / TER loop, C16).  Both are re-verified here.
+import copy as _copy
+from contracts import c02 as _c02, c16 as _c16
+for _c in (_c02.atoms_loop, _c16.serials):
+    _c = _copy.copy(_c)
+    _c.prop = 'C03'
+    CONTRACTS.append(_c)
+for _l in (_c16.L_nat_nonneg, _c16.L_nat_mono):
+    _l = _copy.copy(_l)
+    _l.prop = 'C03'
+    LEMMAS.append(_l)
+
+
 def extra_obligations(tier):
     obs = []
 
